@@ -89,6 +89,20 @@ def obligations(ctx, tier):
                 extra = [("x%d" % k, v) for k, v in enumerate([200, 255, 256, 1000, 65535, 65536, 1 << 31, (1 << 32) - 1, 1 << 32, 1 << 40, (1 << 63) - 1,
                                                                 1 << 63, (1 << 64) - 1, 1 << 64, 1 << 100, (1 << 128) - 1]) if v < (1 << b_)]
                 out += core.g_row(K, PROP, fid, [(n, (lambda v=v, ty=ty: lambda W: {0: PI(ty, v)})(), exfrom) for n, v in c09.prim_reps(ty) + extra])
+            # ---- From<signed primitive> for signed bnum: the same numeric value whenever the target can hold it
+            if sg:
+                for ty in ("i8", "i16", "i32", "i64", "i128", "isize"):
+                    fid = tr(A, "core::convert::From", [ty], "from")
+                    if F.lookup(fid) is None:
+                        continue
+                    b_ = {"i8": 8, "i16": 16, "i32": 32, "i64": 64, "i128": 128, "isize": 64}[ty]
+
+                    def exfrom_s(W, env, A=A, b_=b_):
+                        # a target narrower than the source primitive is the README limitation (no row demands anything there)
+                        return ("val", W.wrap(A, env[0].v)) if W.bits(A) >= b_ else ("any",)
+                    extra = [("y%d" % k, v) for k, v in enumerate([200, -200, 1 << 31, -(1 << 31) - 1, (1 << 63) - 1, 1 << 63, -(1 << 63), -(1 << 63) - 1,
+                                                                    (1 << 64) - 1, 1 << 64, -(1 << 64), (1 << 100) + 5, -(1 << 100)]) if -(1 << (b_ - 1)) <= v < (1 << (b_ - 1))]
+                    out += core.g_row(K, PROP, fid, [(n, (lambda v=v, ty=ty: lambda W: {0: PI(ty, v)})(), exfrom_s) for n, v in c09.prim_reps(ty) + extra])
             # ---- TryFrom<bnum> for every primitive: whatever is decided before the digit loop (the single-digit fast path
             #      when the digit is wider than the target) must be Ok exactly for representable values
             out += to_prim_rows(K, A)
